@@ -216,14 +216,14 @@ func init() {
 			pushes := w.callsMatching(f, `\.cache\.Push\(`)
 			c.Check(len(pushes) == 1, fk+" :: committed txs are pushed into the cache", w.pos(f.Pos()), "cache.Push in the update loop", fmt.Sprintf("%d cache.Push calls", len(pushes)))
 			for _, p := range pushes {
-				c.guards(f, p, fk+" :: cache.Push(committed tx)", 0, guardCmp("DeliverTx code OK", `.*\[.*rangeindex.*\]\.Code`, "==", "0"))
-				c.Check(regexp.MustCompile(`\.cache\.Push\((txs|blockTxs)\[\(phi\(\(phi:rangeindex \+ 1\)\|-1\) \+ 1\)\]\)$`).MatchString(w.callStr(p)), fk+" :: cache.Push argument is the committed tx", w.ipos(p), w.callStr(p), "argument is "+w.callStr(p))
+				c.guards(f, p, fk+" :: cache.Push(committed tx)", 0, guardCmp("DeliverTx code OK", `.*\[`+fwdIdx+`\]\.Code`, "==", "0"))
+				c.Check(regexp.MustCompile(`\.cache\.Push\((txs|blockTxs)\[`+fwdIdx+`\]\)$`).MatchString(w.callStr(p)), fk+" :: cache.Push argument is the committed tx", w.ipos(p), w.callStr(p), "argument is "+w.callStr(p))
 			}
 			// every committed tx is removed from the pool by key
 			rm := 0
 			for _, call := range callInstrs(f) {
 				cs := w.callStr(call)
-				if regexp.MustCompile(`\.(removeTx|removeTxByKey)\(`).MatchString(cs) && strings.Contains(cs, "rangeindex") {
+				if regexp.MustCompile(`\.(removeTx|removeTxByKey)\(`).MatchString(cs) && regexp.MustCompile(`\[`+fwdIdx+`\]`).MatchString(cs) {
 					rm++
 					// not conditional on the DeliverTx code
 					for _, a := range w.atomsAt(call) {
